@@ -81,9 +81,11 @@ def run(tier, seed, rng):
                 for li in range(len(cfg['layers'])):
                     ew, eb = neoxrun.shard_of(cfg, li, m_, *ref[si]['after'][li])
                     gw, gb = ob['after'][li]
-                    err = float((gw - ew).abs().max()) / max(float(ew.abs().max()), 1e-30)
+                    fw_, fb_ = ref[si]['after'][li]                    # scale by the whole unsharded result: a shard may be exactly zero
+                    sc = max(float(fw_.abs().max()), 0.0 if fb_ is None else float(fb_.abs().max()), 1e-12)
+                    err = float((gw - ew).abs().max()) / sc
                     if gb is not None:
-                        err = max(err, float((gb - eb).abs().max()) / max(float(eb.abs().max()), 1e-30))
+                        err = max(err, float((gb - eb).abs().max()) / sc)
                     if not clip_mp:
                         worst = max(worst, err)
                     if err > 1e-6:
@@ -112,6 +114,7 @@ def run(tier, seed, rng):
                     bgs = [hexv(w.results[r][ev]['before'][li][1].double().numpy()) if hb else [] for r in ranks_mp]
                     mo = common.run_model([('neox_precondition', ['input' if kind == 'row' else 'output', M, nout, nin, hb, hexm(Qg), hexv(dg),
                                                                  hexm(Qa), hexv(da), float(cfg['damping']).hex(), wgs, bgs, 0])])[0]
+                    vscale = max([float(np.linalg.norm(unhex(x))) for x in mo] + [1e-12])   # a shard may be exactly zero: relative to the whole result
                     for j, r in enumerate(ranks_mp):
                         V = unhex(mo[j])
                         gw, gb = w.results[r][ev]['after'][li]
@@ -120,7 +123,7 @@ def run(tier, seed, rng):
                             got = np.concatenate([got, gb.double().numpy().reshape(-1, 1)], axis=1)
                         dap, dgp = np.maximum(da, 0), np.maximum(dg, 0)
                         kappa = (dgp.max() * dap.max() + cfg['damping']) / (dgp.min() * dap.min() + cfg['damping'])
-                        rel = float(np.linalg.norm(got - V) / max(np.linalg.norm(V), 1e-30))
+                        rel = float(np.linalg.norm(got - V) / vscale)
                         # the implementation decomposes the factors in float32 (backward error ~ n * eps32 * |factor|), the model gets a float64 decomposition
                         if rel > 64 * max(len(da), len(dg)) * EPS32 * max(kappa, 1) + 1e-6:
                             diffs.append(f'step {si} layer {li} model-parallel rank {j}: differs from extracted neox_precondition (rel {rel:.2e})')
